@@ -50,7 +50,24 @@ InnerBody == { <<VX>>, <<LB, VX, Comma, VY, RB>>, <<B, LB, Star, RB, Dot, LB, VX
 Lets1 == { LetOf(bs, b) : bs \in InnerBinds, b \in InnerBody }
 Body1 == UNION { Wrap(l) : l \in Lets1 }
 
-Exprs == { LetOf(bs, b) : bs \in Binds, b \in Body0 }
+\* lets with many bindings (beyond any small-size fast path): ten bindings,
+\* optionally one of them faulting at run time, and a body that refers to a
+\* name of its own, of ANOTHER big let, or of an enclosing let
+VN(pfx, i) == VarT(<<36, pfx, 48 + i>>)                       \* $b0 .. $b9, $c0 .. $c9
+RECURSIVE BigBinds(_, _, _)
+BigBinds(pfx, i, bad) ==
+  IF i > 9 THEN <<>>
+  ELSE (IF i > 0 THEN <<Comma>> ELSE <<>>)
+       \o <<VN(pfx, i), AssignT>> \o (IF i = bad THEN <<Id(<<97,98,115>>), LP, Raw(<<39,120,39>>), RP>> ELSE <<Json(<<96, 48 + i, 96>>)>>)
+       \o BigBinds(pfx, i + 1, bad)
+BigLets == { LetOf(BigBinds(98, 0, bad), body) :
+               bad \in {0 - 1, 3, 9},
+               body \in { <<VN(98, 0)>>, <<LB, VN(98, 2), Comma, VN(98, 9), RB>>, <<VN(99, 0)>>, <<VN(99, 7)>> } }
+           \cup { LetOf(BigBinds(99, 0, 0 - 1), body) : body \in { <<VN(98, 0)>>, <<VN(98, 5)>>, <<VN(99, 5)>>, <<VX>> } }
+           \cup { LetOf(<<VX, AssignT, A>>, LetOf(BigBinds(99, 0, 0 - 1), <<LB, VX, Comma, VN(99, 1), RB>>)),
+                  LetOf(<<VN(98, 5), AssignT, A>>, LetOf(BigBinds(99, 0, 0 - 1), <<VN(98, 5)>>)) }
+
+Exprs == { LetOf(bs, b) : bs \in Binds, b \in Body0 } \cup BigLets
          \cup (IF Depth >= 2 THEN { LetOf(bs, b) : bs \in Binds, b \in Body1 } ELSE {})
          \cup Body0                                              \* no enclosing binding: undefined variable
 ExprSeq == SetToSeq(Exprs)
